@@ -6,11 +6,13 @@
      C44_filecmds_sound:  the file commands emitted between the first parent and a revision,
                           applied with the importer's semantics to the imported parent, yield the
                           revision's tree.
-   Both are FALSE of the faithful model and of the code.  This file holds
-     * the refutations (witnesses replayed on the real exporter+importer by harness/props/c44.py corpus()),
-     * what does hold for all inputs: the exporter's half of soundness (_partial), the history
-       shape and metadata (_partial / _guarded with executable guards).
-   Not proved: that the file commands reproduce the tree under the guard
+   State after the repair round (fix commits 8f7ca2e 139a868 bbc24e3 08f41a9 62f284f ff45d1e): the parent
+   structure, rich streams, rewritten tag names, directory renames in plain streams and file->directory kind
+   changes are repaired and their statements are now unguarded / positive.  Still FALSE of the faithful model
+   and of the code: the tree-level statement for rename orders and for a directory replaced by a file
+   (_refuted, witnesses replayed on the real code by harness/props/c44.py corpus()), empty directories, and
+   the format limits of the stream (sub-second timestamps, odd UTC offsets, normalised idents, invalid tag
+   names).  Not proved: that the file commands reproduce the tree under the guard
    harness/props/_c44_mirror.py:tree_guard_reason -- that half rests on the correspondence runs. *)
 From Coq Require Import ZArith NArith List Bool String.
 From BV Require Import Lib.Bytes Lib.Obs Model.FastIO Model.FastHist Theory.FastIO Theory.FastIORD Theory.FastHist.
@@ -18,19 +20,20 @@ Import ListNotations.
 
 (* ---- C44_filecmds_sound ---------------------------------------------------------------- *)
 
-(* swap, rename onto a vacated path (both orders), directory rename with a modified child, symlink
-   replaced by a directory with two files, directory replaced by a file while its child moves out,
-   symlink turned into an empty directory: in each case both trees are well formed, the old tree is
-   imported exactly, and the emitted commands do NOT produce the new tree on it *)
+(* swap, rename onto a vacated path (both orders), directory replaced by a file while its child moves out:
+   in each case both trees are well formed, the old tree is imported exactly, and the emitted commands do NOT
+   produce the new tree on it *)
 Theorem C44_filecmds_sound_refuted :
-  refutes true wit_swap /\ refutes true wit_clobber /\ refutes true wit_chain /\
-  refutes true wit_dirrename /\ refutes true wit_link_to_dir2 /\ refutes true wit_dir_to_file /\
-  refutes true wit_link_to_emptydir.
-Proof.
-  exact (conj swap_refutes (conj clobber_refutes (conj chain_refutes (conj dirrename_refutes
-        (conj link_to_dir2_refutes (conj dir_to_file_refutes link_to_emptydir_refutes)))))).
-Qed.
+  refutes true wit_swap /\ refutes true wit_clobber /\ refutes true wit_chain /\ refutes true wit_dir_to_file.
+Proof. exact (conj swap_refutes (conj clobber_refutes (conj chain_refutes dir_to_file_refutes))). Qed.
 Print Assumptions C44_filecmds_sound_refuted.
+
+(* the former witnesses "directory rename with a modified child" (ff45d1e) and "symlink replaced by a
+   directory with two files" (62f284f) are exact now *)
+Theorem C44_filecmds_sound_repaired_witnesses :
+  exact_on true wit_dirrename /\ exact_on true wit_link_to_dir2.
+Proof. exact (conj dirrename_exact link_to_dir2_exact). Qed.
+Print Assumptions C44_filecmds_sound_repaired_witnesses.
 
 (* the exporter's half, for all trees, both stream formats and every order of the M commands: every file
    or symlink of the new tree that is new, or whose kind, content, target or executable bit changed, gets
@@ -38,43 +41,55 @@ Print Assumptions C44_filecmds_sound_refuted.
    entry whose old path was an empty directory).  Missing for full soundness: the importer's application
    and the interplay with the R/D commands (see _refuted). *)
 Theorem C44_filecmds_sound_partial :
-  forall (plain : bool) (old new : inv) (mpaths : list path) (e : entry),
+  forall (plain : bool) (old new : inv) (mpaths dpaths : list path) (e : entry),
     nodup_N (map e_id new) = true ->
     In e new ->
     kind_eqb (e_kind e) KDir = false ->
     needs_M old e = true ->
     (forall o, find_entry old (e_id e) = Some o -> renamed_b o e = true ->
                is_empty_dir old (opath old (e_id o)) = false) ->
-    In (CM (opath new (e_id e)) (mode_of e) (e_data e)) (snd (filecmds plain old new mpaths)).
+    In (CM (opath new (e_id e)) (mode_of e) (e_data e)) (snd (filecmds plain old new mpaths dpaths)).
 Proof. exact filecmds_emit_changed_content. Qed.
 Print Assumptions C44_filecmds_sound_partial.
 
 (* ... every renamed file or symlink (rich streams: every renamed entry) whose old path is not an empty
    directory gets `R old new` ... *)
 Theorem C44_filecmds_renames_partial :
-  forall (plain : bool) (old new : inv) (mpaths : list path) (o e : entry),
+  forall (plain : bool) (old new : inv) (mpaths dpaths : list path) (o e : entry),
     In o old -> find_entry new (e_id o) = Some e -> renamed_b o e = true ->
     negb (kind_eqb (e_kind e) KDir) || negb plain = true ->
     is_empty_dir old (opath old (e_id o)) = false ->
-    In (CR (opath old (e_id o)) (opath new (e_id o))) (fst (filecmds plain old new mpaths)).
+    In (CR (opath old (e_id o)) (opath new (e_id o))) (fst (filecmds plain old new mpaths dpaths)).
 Proof. exact exporter_emits_renames. Qed.
 Print Assumptions C44_filecmds_renames_partial.
 
 (* ... and every removed file or symlink (rich: every removed entry) gets `D old-path`, provided no
    directory is renamed in plain mode (a directory renamed onto a removed path swallows the D) *)
 Theorem C44_filecmds_deletes_partial :
-  forall (plain : bool) (old new : inv) (mpaths : list path) (o : entry),
+  forall (plain : bool) (old new : inv) (mpaths dpaths : list path) (o : entry),
     In o old -> has_id new (e_id o) = false ->
     negb (kind_eqb (e_kind o) KDir) || negb plain = true ->
     (forall c, In c (d_renamed old new) -> emits plain c = true) ->
-    In (CD (opath old (e_id o))) (fst (filecmds plain old new mpaths)).
+    In (CD (opath old (e_id o))) (fst (filecmds plain old new mpaths dpaths)).
 Proof. exact exporter_emits_deletes. Qed.
 Print Assumptions C44_filecmds_deletes_partial.
 
+(* ... and a file or symlink that becomes a directory is deleted by a leading `D path` (62f284f) *)
+Theorem C44_filecmds_kind_change_partial :
+  forall (plain : bool) (old new : inv) (mpaths dpaths : list path) (o e : entry),
+    In o old -> find_entry new (e_id o) = Some e -> renamed_b o e = false ->
+    kind_eqb (e_kind o) KDir = false -> kind_eqb (e_kind e) KDir = true ->
+    In (CD (opath old (e_id o))) (fst (filecmds plain old new mpaths dpaths)).
+Proof. exact exporter_deletes_before_kind_change. Qed.
+Print Assumptions C44_filecmds_kind_change_partial.
+
+(* empty directories: not imported by a plain stream; a symlink that becomes an empty directory is deleted
+   (no stale link any more) but the directory does not arrive *)
 Theorem C44_empty_directory_refuted :
-  wf_inv (fst wit_emptydir) = true /\
-  exists b fr, image true (fst wit_emptydir) = Ok (b, fr) /\ tree_of b <> tree_of (fst wit_emptydir).
-Proof. exact empty_directory_lost. Qed.
+  (wf_inv (fst wit_emptydir) = true /\
+   exists b fr, image true (fst wit_emptydir) = Ok (b, fr) /\ tree_of b <> tree_of (fst wit_emptydir)) /\
+  step_tree true (fst wit_link_to_emptydir) (snd wit_link_to_emptydir) = Ok (tree_of [F 2 0 bB tA]).
+Proof. exact (conj empty_directory_lost link_to_emptydir_leaf). Qed.
 Print Assumptions C44_empty_directory_refuted.
 
 (* ---- C44_import_export_iso ------------------------------------------------------------- *)
@@ -83,41 +98,28 @@ Print Assumptions C44_empty_directory_refuted.
    the committer, authors, timestamp, time zone and message of its command *)
 Theorem C44_import_export_iso_partial :
   forall (xs : list xcommit) (tags : list (bytes * nat)) (s : ist),
-    import_stream false xs tags = Ok s ->
+    import_stream xs tags = Ok s ->
     map fst (i_revs s) = map x_mark xs /\ Forall2 meta_rel xs (map snd (i_revs s)).
 Proof. exact import_preserves_count_and_meta. Qed.
 Print Assumptions C44_import_export_iso_partial.
 
-(* parent structure: a commit with at least one parent, all of them exported before it, is imported
-   with exactly the marks of its parents, left-hand parent first, merge parents in order *)
-Theorem C44_parents_preserved_guarded :
+(* parent structure (unguarded since 139a868): every commit whose parents were exported before it -- a
+   parentless one included -- is imported with exactly the marks of its parents, left-hand parent first,
+   merge parents in order *)
+Theorem C44_parents_preserved :
   forall plain h order r sr s s' ms,
     Forall2 (fun p k => mark_of order p = Some k) (s_parents sr) ms ->
-    ms <> [] ->
-    import_one false s (export_commit plain h order r sr) = Ok s' ->
+    import_one s (export_commit plain h order r sr) = Ok s' ->
     exists d, i_revs s' = i_revs s ++ [(x_mark (export_commit plain h order r sr), d)] /\ d_parents d = ms.
 Proof. exact commit_parents_preserved. Qed.
-Print Assumptions C44_parents_preserved_guarded.
+Print Assumptions C44_parents_preserved.
 
-(* ... but a parentless commit that is not the first one is given the previous commit as parent *)
-Theorem C44_multiple_roots_refuted :
-  (forall plain h order r sr s s' l,
-      s_parents sr = [] ->
-      aget bytes_eqb (last_ids (i_rt s)) MASTER = Some l ->
-      import_one false s (export_commit plain h order r sr) = Ok s' ->
-      exists d, i_revs s' = i_revs s ++ [(x_mark (export_commit plain h order r sr), d)] /\ d_parents d = [l])
-  /\ (exists l, imported h_two_roots 2 = Ok l /\
-                ~ (exists t1 t2 t3, l = [([], t1); ([], t2); ([1%nat; 2%nat], t3)] \/
-                                    l = [([], t1); ([], t2); ([2%nat; 1%nat], t3)])).
-Proof. exact (conj root_commit_reparented two_roots_not_preserved). Qed.
-Print Assumptions C44_multiple_roots_refuted.
-
-(* a rich stream whose revisions carry properties (every normally committed revision does) is rejected *)
-Theorem C44_rich_properties_refuted :
-  forall (x : xcommit) (xs : list xcommit) (tags : list (bytes * nat)),
-    import_stream true (x :: xs) tags = Fail "ValueError".
-Proof. exact rich_properties_rejected. Qed.
-Print Assumptions C44_rich_properties_refuted.
+(* the former witness of C44-multiple-roots: two unrelated roots and their merge come back as they were *)
+Theorem C44_two_roots_preserved :
+  imported h_two_roots 2 = Ok [([], tree_of [F 1 0 bA tA]); ([], tree_of [F 2 0 bB tB]);
+                               ([1%nat; 2%nat], tree_of [F 1 0 bA tA; F 2 0 bB tB])].
+Proof. exact two_roots_preserved. Qed.
+Print Assumptions C44_two_roots_preserved.
 
 (* ---- metadata -------------------------------------------------------------------------- *)
 
@@ -143,9 +145,16 @@ Theorem C44_ident_guarded :
 Proof. exact ident_roundtrip. Qed.
 Print Assumptions C44_ident_guarded.
 
+(* repaired (08f41a9): "<joe@x.org>" is canonical now *)
+Theorem C44_ident_empty_name_roundtrip :
+  format_name_email (name_email ([60] ++ JOE ++ [62])%list ([], JOE)) = ([60] ++ JOE ++ [62])%list.
+Proof. exact ident_empty_name_roundtrip. Qed.
+Print Assumptions C44_ident_empty_name_roundtrip.
+
+(* residue: "Joe <>" comes back as "Joe" (and whatever parseaddr normalises) *)
 Theorem C44_ident_refuted :
-  format_name_email (name_email ([60] ++ JOE ++ [62])%list ([], JOE)) <> ([60] ++ JOE ++ [62])%list.
-Proof. exact ident_empty_name_changed. Qed.
+  format_name_email (name_email [74; 111; 101; 32; 60; 62]%N ([74; 111; 101]%N, [])) <> [74; 111; 101; 32; 60; 62]%N.
+Proof. exact ident_empty_email_changed. Qed.
 Print Assumptions C44_ident_refuted.
 
 (* ---- tags -------------------------------------------------------------------------------- *)
@@ -164,12 +173,18 @@ Theorem C44_tag_dropped_refuted :
 Proof. exact invalid_tag_dropped. Qed.
 Print Assumptions C44_tag_dropped_refuted.
 
-Theorem C44_rewritten_tag_moves_tip_refuted :
-  prefixb REFS_TAGS (sanitize_ref (REFS_TAGS ++ HID)) = false /\
-  match import_stream false (export_commits true h_two 1)
+(* unguarded since bbc24e3: whatever the tag names and flags, every tag reset in the stream is below
+   refs/tags/ (so the importer never takes a rewritten tag for a branch head); ".hid" becomes "_hid" and the
+   imported branch keeps its real tip *)
+Theorem C44_rewritten_tag_stays_tag :
+  (forall plain rewrite notags order tags t,
+      In t (export_tags plain rewrite notags order tags) -> prefixb REFS_TAGS (fst t) = true) /\
+  (forall order r k, mark_of order r = Some k ->
+      export_tags true true false order [(HID, Some r)] = [(REFS_TAGS ++ [95; 104; 105; 100]%N, k)]) /\
+  match import_stream (export_commits true h_two 1)
                       (export_tags true true false (export_order h_two 1) [(HID, Some 0%nat)]) with
-  | Ok s => final_tip s = Some 1%nat
+  | Ok s => final_tip s = Some 2%nat /\ i_tags s = [([95; 104; 105; 100]%N, 1%nat)]
   | Fail _ => False
   end.
-Proof. exact (conj rewritten_tag_leaves_refs_tags rewritten_tag_moves_tip). Qed.
-Print Assumptions C44_rewritten_tag_moves_tip_refuted.
+Proof. exact (conj exported_tags_are_tags (conj invalid_tag_rewritten rewritten_tag_keeps_tip)). Qed.
+Print Assumptions C44_rewritten_tag_stays_tag.
